@@ -10,9 +10,12 @@
 (* current operation: NONE, PEND (called, no effect yet), OPEN (reset that  *)
 (* has begun: it may fire trigger effects), or its result (>= 0) once it    *)
 (* has taken effect.                                                        *)
-(*  - trigger: on active: g := TRUE, result 1; on inactive: no effect, 0    *)
-(*  - activate: g := FALSE, a := TRUE (or a no-op when already active);     *)
-(*    its result is not constrained by C11 (normalised to 0)                *)
+(*  - trigger: on inactive: no effect, 0; on active: result 1 and - a        *)
+(*    separate step, as in the code: the store may land after a reset and   *)
+(*    re-activation that happened meanwhile - g := TRUE                     *)
+(*  - activate: g := FALSE, then (a separate step, as in the code) a := TRUE, *)
+(*    or a no-op when already active; its result is not constrained by C11   *)
+(*    (normalised to 0)                                                      *)
 (*  - reset: on inactive nothing; on active any number of trigger effects   *)
 (*    then a := FALSE ("cause the trigger to occur and then be reset")      *)
 (*  - wait takes effect only when ~a \/ g; wait_for returns 0 only when     *)
@@ -26,6 +29,8 @@ EXTENDS Naturals, Integers, FiniteSets
 NONE == -1
 PEND == -2
 OPEN == -3
+OPENT == -5     \* trigger() that found the variable active and has not yet stored `triggered` (check and store are separate steps)
+OPENA == -4     \* activate() that has cleared `triggered` and not yet set `activated` (its two effects are separate steps of the code)
 
 Set(c, t, v) == [c EXCEPT !.st[t] = v]
 B(b) == IF b THEN 1 ELSE 0
@@ -33,8 +38,8 @@ B(b) == IF b THEN 1 ELSE 0
 \* one effect step of thread t's pending operation o in configuration c
 Eff(c, t, o) ==
   IF c.st[t] = PEND THEN
-    CASE o = 0 -> {[a |-> TRUE, g |-> FALSE, st |-> [c.st EXCEPT ![t] = 0]]} \cup (IF c.a THEN {Set(c, t, 0)} ELSE {})
-      [] o = 1 -> IF c.a THEN {[a |-> c.a, g |-> TRUE, st |-> [c.st EXCEPT ![t] = 1]]} ELSE {Set(c, t, 0)}
+    CASE o = 0 -> {[a |-> c.a, g |-> FALSE, st |-> [c.st EXCEPT ![t] = OPENA]]} \cup (IF c.a THEN {Set(c, t, 0)} ELSE {})
+      [] o = 1 -> IF c.a THEN {Set(c, t, OPENT)} ELSE {Set(c, t, 0)}
       [] o = 2 -> IF ~c.a \/ c.g THEN {Set(c, t, 1)} ELSE {}
       [] o = 3 -> IF ~c.a \/ c.g THEN {Set(c, t, 1)} ELSE {}
       \* after the give-up: 0 whenever the event has not happened (also when the variable was deactivated meanwhile)
@@ -46,9 +51,15 @@ Eff(c, t, o) ==
       [] o = 7 -> {Set(c, t, B(c.a))}
       [] o = 8 -> {Set(c, t, B(c.g))}
       [] OTHER -> {}
+  ELSE IF c.st[t] = OPENT THEN
+    {[a |-> c.a, g |-> TRUE, st |-> [c.st EXCEPT ![t] = 1]]}
+  ELSE IF c.st[t] = OPENA THEN
+    {[a |-> TRUE, g |-> c.g, st |-> [c.st EXCEPT ![t] = 0]]}
   ELSE IF c.st[t] = OPEN THEN
     \* reset in progress: a trigger effect, or the final deactivation
-    {[a |-> c.a, g |-> (c.g \/ c.a), st |-> c.st], [a |-> FALSE, g |-> c.g, st |-> [c.st EXCEPT ![t] = 0]]}
+    \* (the trigger effect was decided when the reset saw the variable active: like trigger()'s store it may land after another
+    \* thread's reset and re-activation)
+    {[a |-> c.a, g |-> TRUE, st |-> c.st], [a |-> FALSE, g |-> c.g, st |-> [c.st EXCEPT ![t] = 0]]}
   ELSE {}
 
 Succ(c, ops) == UNION {Eff(c, t, ops[t]) : t \in DOMAIN c.st}
